@@ -51,9 +51,11 @@
        PARTLY carried by theorems since Proofs/Gaps.v and Proofs/Owned2.v:
        C15_clone_acct (ANY environment): the clone owns exactly the objects the
          Clone callbacks returned, one pair per stored entry, and cloning
-         destroys nothing; on a Clone panic the only objects destroyed are
-         objects the Clone callbacks returned during this call (d is part of
-         `made`) - objects of the original only if Clone handed them back.
+         destroys nothing; on a Clone panic the objects destroyed are exactly
+         the objects the Clone callbacks returned during this call (d is a
+         permutation of `made` ++ `orphan`, the key cloned just before its
+         value's Clone panicked) - objects of the original only if Clone handed
+         them back - and the abandoned clone holds nothing.
        C15_clone_ids_fresh / C15_clone_disjoint_from_source: if Clone returns
          new objects (premises HFK / HFV), no object stored in the clone is an
          object stored in the original (nor any of a given list `avoid`), so
@@ -301,13 +303,19 @@ Print Assumptions C15_clone_disjoint_from_source.
    Clone panic; Tidy m = no element sits beyond len (true of Map::new()).
    Normal return: the clone owns exactly the len src pairs the callbacks made -
    one per stored entry - and NOTHING has been destroyed (the original's objects
-   are untouched: they are not even mentioned).  Panic: everything made so far
-   has been destroyed by the Drop of the partial clone (d) or is left in its
-   dead storage, nothing else was destroyed.                                   *)
+   are untouched: they are not even mentioned).
+   Panic (model change of 2026-10-01: a panic unwinds through the partial clone
+   with the panic-free unwind_map, and clone_pair destroys the freshly cloned
+   key when the value's Clone panics): clone_orphans E src n i s = the identities
+   of that orphan key ([] when it is a K::clone that panicked).  EVERYTHING made
+   by this run - the pairs written so far and the orphan key - has been
+   destroyed, each exactly once (d is a permutation of made ++ orphan), nothing
+   else was destroyed, and the abandoned clone holds nothing.                  *)
 Theorem C15_clone_acct :
   forall (K V Q T : Type) (E : env K V Q T) (src : map K V) (w : world K V T),
     WF src -> WF (self w) -> len (self w) = 0 -> cap (self w) = cap src -> Tidy (self w) ->
     let made := flat_map (ids_pair E) (clone_made E src (len src) 0 (cb w)) in
+    let orphan := clone_orphans E src (len src) 0 (cb w) in
     wp (clone_from_src E src)
        (fun (_ : unit) (w' : world K V T) =>
           WF (self w') /\
@@ -317,9 +325,10 @@ Theorem C15_clone_acct :
           dropped (log w') = dropped (log w) /\
           Permutation (owned E (self w')) made)
        (fun w' : world K V T =>
+          owned E (self w') = [] /\
           exists d : list N,
             dropped (log w') = dropped (log w) ++ d /\
-            Permutation (owned E (self w') ++ d) made)
+            Permutation d (made ++ orphan))
        w.
 Proof. exact (@clone_acct). Qed.
 Print Assumptions C15_clone_acct.
@@ -541,15 +550,21 @@ Print Assumptions C15_clone_honest_set.
 (* -------------------------------------------------------------------------- *)
 (* 7. ANY environment.  `made` is, as in C15_clone_acct, the list of identities
    the Clone callbacks of THIS run return (clone_made replays them from the
-   callback state cb w).  Hypothesis: none of them is an identity held in a slot
-   of the original.  Conclusion on normal return: the clone owns exactly `made`,
-   nothing was destroyed, and clone and original hold NO common identity (both
-   directions).  If a Clone panics: what the unwinding destroys (d) and what is
-   left in the abandoned clone are no identities of the original either. *)
+   callback state cb w) and that were written into the clone; `orphan` is one
+   more object made by this run: the key K::clone returned just before the value's
+   Clone panicked (clone_orphans, [] otherwise), which the unwinding destroys.
+   Hypothesis: no identity of `made` is held in a slot of the original.
+   Conclusion on normal return: the clone owns exactly `made`, nothing was
+   destroyed, and clone and original hold NO common identity (both directions).
+   If a Clone panics: the abandoned clone holds nothing, what was destroyed (d) is
+   exactly made ++ orphan - so, as soon as the orphan key is new as well (the
+   inner premise; it holds of env_map / env_set, see below), no identity of the
+   original has been destroyed. *)
 Theorem C15_clone_disjoint_run :
   forall (K V Q T : Type) (E : env K V Q T) (src : map K V) (w : world K V T),
     WF src -> WF (self w) -> len (self w) = 0 -> cap (self w) = cap src -> Tidy (self w) ->
     let made := flat_map (ids_pair E) (clone_made E src (len src) 0 (cb w)) in
+    let orphan := clone_orphans E src (len src) 0 (cb w) in
     (forall x : N, In x made -> ~ In x (owned E src)) ->
     wp (clone_from_src E src)
        (fun (_ : unit) (w' : world K V T) =>
@@ -560,10 +575,12 @@ Theorem C15_clone_disjoint_run :
           (forall x : N, In x (owned E (self w')) -> ~ In x (owned E src)) /\
           (forall x : N, In x (owned E src) -> ~ In x (owned E (self w'))))
        (fun w' : world K V T =>
+          owned E (self w') = [] /\
           exists d : list N,
             dropped (log w') = dropped (log w) ++ d /\
-            (forall x : N, In x d -> ~ In x (owned E src)) /\
-            (forall x : N, In x (owned E (self w')) -> ~ In x (owned E src)))
+            Permutation d (made ++ orphan) /\
+            ((forall x : N, In x orphan -> ~ In x (owned E src)) ->
+             forall x : N, In x d -> ~ In x (owned E src)))
        w.
 Proof. exact (@clone_disjoint_run). Qed.
 Print Assumptions C15_clone_disjoint_run.
@@ -593,7 +610,10 @@ Proof. exact clone_fresh_env_set. Qed.
 Print Assumptions C15_clone_fresh_env_set.
 
 (* ... hence, on the checked system: clone and original share no identity, and a
-   Clone panic destroys nothing of the original.  EVERY script. *)
+   Clone panic destroys nothing of the original (the orphan key, too, carries an
+   identity taken from the counter: MoreEq.clone_orphans_map_ge; a Set has no
+   value Clone that could panic: clone_orphans_set_nil) and leaves nothing in the
+   abandoned clone.  EVERY script. *)
 Theorem C15_clone_disjoint_env_map :
   forall (sc : script) (src : map key vobj) (w : world key vobj cstate),
     WF src -> WF (self w) -> len (self w) = 0 -> cap (self w) = cap src -> Tidy (self w) ->
@@ -604,6 +624,7 @@ Theorem C15_clone_disjoint_env_map :
           (forall x : N, In x (owned (env_map sc) src) -> ~ In x (owned (env_map sc) (self w'))) /\
           dropped (log w') = dropped (log w))
        (fun w' : world key vobj cstate =>
+          owned (env_map sc) (self w') = [] /\
           exists d : list N,
             dropped (log w') = dropped (log w) ++ d /\
             (forall x : N, In x d -> ~ In x (owned (env_map sc) src)))
@@ -621,6 +642,7 @@ Theorem C15_clone_disjoint_env_set :
           (forall x : N, In x (owned (env_set sc) src) -> ~ In x (owned (env_set sc) (self w'))) /\
           dropped (log w') = dropped (log w))
        (fun w' : world key unit cstate =>
+          owned (env_set sc) (self w') = [] /\
           exists d : list N,
             dropped (log w') = dropped (log w) ++ d /\
             (forall x : N, In x d -> ~ In x (owned (env_set sc) src)))
@@ -642,6 +664,20 @@ Proof.
   split; intros x Hx; vm_compute in Hx; change (next_id (cb (w_of (new_map 3)))) with 100000%N;
     repeat (destruct Hx as [<-|Hx]; [lia|]); destruct Hx.
 Qed.
+
+(* the Clone of the 2nd VALUE panics (clone call number 3): one pair had been
+   written (100000, 100001), the 2nd key had been cloned (the orphan 100002);
+   all three - and nothing else, none of 1..6 - are destroyed, the orphan first;
+   the abandoned clone holds nothing *)
+Example C15_example_orphan :
+  clone_orphans (env_map (sc_clone 3)) m3 (len m3) 0 cs0 = [100002]%N /\
+  flat_map (ids_pair (env_map (sc_clone 3))) (clone_made (env_map (sc_clone 3)) m3 (len m3) 0 cs0)
+    = [100000; 100001]%N /\
+  match clone_from_src (env_map (sc_clone 3)) m3 (w_of (new_map 3)) with
+  | Panic w' => dropped (log w') = [100002; 100000; 100001]%N /\ owned (env_map (sc_clone 3)) (self w') = []
+  | _ => False
+  end.
+Proof. split; [vm_compute; reflexivity|]. split; vm_compute; [reflexivity | split; reflexivity]. Qed.
 
 (* -------------------------------------------------------------------------- *)
 (* 8a. Destruction.  ANY environment (Drop may panic: both outcomes).  Running
